@@ -16,6 +16,16 @@ CHECKS = {
     ),
 }
 
+CHECKS["C20"] = dict(
+    text="Seeded search over arrays, thread counts (explicit and the default heuristic on a simulated machine of 1-64 CPUs), block schedules of the simulated "
+    "pool and injected worker failures; every result is compared with NumPy's NaN-aware function computed in float64 (exactly for min/max/count, within a "
+    "derived summation bound for sum/mean/var/std) and with the one-thread result. The pure helper clauses (nb_dot, bools_to_categorical, pretty_cut) are "
+    "evaluated alongside against their definitions; the level claimed rests on the reducer clause. Sampling: evidence, not proof.",
+    note="Trusts NumPy as the oracle, task atomicity, NUMBA_BOUNDSCHECK=1. Integer arrays never contain int64.min (library null marker, no NumPy counterpart).",
+    design="4.5",
+    technique="deterministic simulation: simulated thread pool + simulated cpu_count + rescaled thread heuristic + injected worker failures; NumPy reference oracle",
+)
+
 NOT_APPLICABLE = {}
 
 def main():
